@@ -270,14 +270,15 @@ package netpoll
 
 //@ func (*FDOperator).Free
 //@   property C05 C10
-//@   requires op.poll != nil && op.owned
+//@   requires op.poll != nil && op.owned && !op.opheld
 //@   ensures !op.owned
-//@   modifies op.owned
+//@   modifies op.owned, operatorCache.freelist, operatorCache.freelocked, operatorCache.ofl, FDOperator.slot, FDOperator.state, mem:int32,
+//@     FDOperator.FD, FDOperator.OnRead, FDOperator.OnWrite, FDOperator.OnHup, FDOperator.Inputs, FDOperator.InputAck, FDOperator.Outputs, FDOperator.OutputAck, FDOperator.poll, FDOperator.detached
 
 // the finalizer registered by initFinalizer: runs as the first-registered (hence last) close callback
 //@ func (*connection).initFinalizer$1
 //@   property C05 C10 C15
-//@   requires cinv(c) && c.heldP && c.keychain[closing] != 0 && c.operator.poll != nil && c.operator.owned
+//@   requires cinv(c) && c.heldP && c.keychain[closing] != 0 && c.operator.poll != nil && c.operator.owned && !c.operator.opheld
 //@   requires wfs(c.inputBuffer) && wfs(c.outputBuffer) && c.outputBarrier != nil
 //@   note these object invariants are established by init and only falsified by this finalizer itself, which runs at most once (closeCallback)
 //@   requires c.closed == 0 && !c.detaching && c.fd > 2 ==> fdopen[c.fd]
@@ -340,6 +341,7 @@ package netpoll
 //@   ensures err == nil ==> c.inputBuffer.length >= n
 //@   ensures err != nil ==> errkind(err, ErrReadTimeout) || errkind(err, ErrEOF) || errkind(err, ErrConnClosed)
 //@   ensures c.waitReadSize == 0 || c.waitReadSize == old(c.waitReadSize)
+//@   ensures n <= old(c.inputBuffer.length) ==> err == nil
 //@   ensures old(c.keychain[closing]) != 0 && c.readDeadline <= 0 && c.readTimeout <= 0 ==> !wrBlocked
 //@   ensures old(c.keychain[closing]) == 1 && c.readDeadline <= 0 && c.readTimeout <= 0 && err != nil ==> errkind(err, ErrConnClosed) || errkind(err, ErrEOF)
 //@   modifies c.waitReadSize, c.readTimer, time.Timer.tstate, UnsafeLinkBuffer.length, locker.keychain, wrPub, wrLenSeen, wrLenVal, wrCloseSeen, wrCloseVal, wrBlocked
@@ -371,6 +373,8 @@ package netpoll
 //@   ensures err != nil ==> errkind(err, ErrWriteTimeout) || errkind(err, ErrConnClosed)
 //@   modifies c.writeTimer, time.Timer.tstate, FDOperator.state, c.operator.detached
 
+// nil from a flush means: the buffer was empty when we looked, or we waited for the poller to drain it (fwWaited)
+//@ ghost global fwWaited bool
 //@ func (*connection).flush
 //@   property C04 C08
 //@   requires connok(c) && wf(c.outputBuffer) && c.heldF && (c.writeTimer != nil ==> c.writeTimer.tstate == 0)
@@ -378,7 +382,10 @@ package netpoll
 //@   ensures c.heldF && wf(c.outputBuffer) && (c.writeTimer != nil ==> c.writeTimer.tstate == 0)
 //@   ensures rpos(c.outputBuffer) >= old(rpos(c.outputBuffer)) && rpos(c.outputBuffer) <= old(fpos(c.outputBuffer)) && fpos(c.outputBuffer) == old(fpos(c.outputBuffer))
 //@   ensures !errkind(result, ErrConcurrentAccess)
+//@   ensures result == nil ==> fwWaited || c.outputBuffer.length == 0
 //@   modifies anything
+//@   ghost at entry: fwWaited = false
+//@   ghost before call (*connection).waitFlush#1: fwWaited = true
 
 // ---- poller callbacks of a connection (C04 C06 C07 C08) ----
 //@ ghost global iaPublished bool
@@ -414,10 +421,15 @@ package netpoll
 //@   ghost after call atomic.LoadInt64#1: iaWrs = result
 //@   ghost (*connection).triggerRead/before send readTrigger#1: iaTriggered = true
 
+//@ ghost global rwCtl bool
 //@ func (*connection).rw2r
 //@   property C08
 //@   requires connok(c) && c.operator.poll != nil && c.operator.detached >= 0 && c.operator.detached < 2147483000 && wfEmptySeen
-//@   modifies FDOperator.state, c.operator.detached
+//@   note the write interest is removed before the flusher is woken: a woken flusher may register R2RW again at once, which a late RW2R would overwrite
+//@   modifies FDOperator.state, c.operator.detached, rwCtl
+//@   ghost at entry: rwCtl = false
+//@   ghost before call (*FDOperator).Control#1: rwCtl = true
+//@   ghost before call (*connection).triggerWrite#1: assert rwCtl
 
 //@ func (*connection).outputs
 //@   property C04 C08
@@ -448,7 +460,9 @@ package netpoll
 //@   ensures !c.heldF
 //@   ensures old(c.keychain[closing]) != 0 ==> errkind(result, ErrConnClosed) && unchanged(UnsafeLinkBuffer.length, UnsafeLinkBuffer.mallocSize, UnsafeLinkBuffer.read, UnsafeLinkBuffer.flush, UnsafeLinkBuffer.write, linkBufferNode.off, linkBufferNode.buf, linkBufferNode.malloc)
 //@   ensures errkind(result, ErrConcurrentAccess) ==> unchanged(UnsafeLinkBuffer.length, UnsafeLinkBuffer.mallocSize, UnsafeLinkBuffer.read, UnsafeLinkBuffer.flush, UnsafeLinkBuffer.write, linkBufferNode.off, linkBufferNode.buf, linkBufferNode.malloc)
+//@   ensures result == nil ==> fwWaited || c.outputBuffer.length == 0
 //@   modifies anything
+//@   ghost at entry: fwWaited = false
 
 //@ func (*connection).Write
 //@   property C08 C12
@@ -489,3 +503,45 @@ package netpoll
 //@   rely locker.keychain[closing]: (was != 0 ==> now != 0) && now >= 0 && now <= 2
 //@   ensures old(c.keychain[closing]) != 0 ==> errkind(err, ErrConnClosed) && unchanged(UnsafeLinkBuffer.mallocSize, UnsafeLinkBuffer.write, linkBufferNode.malloc, linkBufferNode.next)
 //@   modifies anything
+
+// ---- OnPrepare runs to completion before the connection is registered with a poller (C09) ----
+//@ ghost global prepDone bool
+//@ ghost global prepRegistered bool
+//@ functype field netpoll.options.onPrepare
+//@   params connection
+//@   results ctx
+//@   note user callback: uses the public API only, which keeps the connection invariant
+//@   ensures typeis(connection, *connection) ==> cinv(as(connection, *connection))
+//@   modifies world
+//@ func (*connection).register
+//@   property C09
+//@   requires cinv(c) && c.operator.poll != nil && !c.heldP && !c.sealed_heldP
+//@   ensures err == nil ==> true
+//@   modifies world, c.heldP, c.heldC, c.sealed_heldP, locker.keychain
+//@ func (*connection).onPrepare
+//@   property C09
+//@   requires cinv(c) && c.operator.poll != nil && c.operator.owned && !c.heldP && !c.heldC && !c.sealed_heldP
+//@   threadlocal !prepDone && !prepRegistered
+//@   ensures prepRegistered ==> (opts == nil || opts.onPrepare == nil || prepDone)
+//@   modifies world, c.heldP, c.heldC, c.sealed_heldP, locker.keychain, prepDone, prepRegistered
+//@   ghost after call dyn.onPrepare#1: prepDone = true
+//@   ghost before call (*connection).register#1: assert opts == nil || opts.onPrepare == nil || prepDone; prepRegistered = true
+//@ func (*connection).SetOnConnect
+//@   property C09
+//@   ensures result == nil
+//@   modifies c.onConnectCallback.v
+//@ func (*connection).SetOnDisconnect
+//@   property C09
+//@   ensures result == nil
+//@   modifies c.onDisconnectCallback.v
+//@ func (*connection).SetReadTimeout
+//@   property C09
+//@   ensures result == nil
+//@   modifies c.readTimeout, c.readDeadline
+//@ func (*connection).SetWriteTimeout
+//@   property C09
+//@   ensures result == nil
+//@   modifies c.writeTimeout, c.writeDeadline
+//@ func (*connection).SetIdleTimeout
+//@   property C09
+//@   modifies nothing
